@@ -35,14 +35,14 @@ Check(prop, pred_, ok) == IF ok THEN {} ELSE
 \* ------------------------------------------------------- set-up payload parsers
 AlgPl(kind, alg) == <<kind, 0, 0, 8, alg, 0, 0, 0>>
 \* 13.17 Open Session Request: tag, requested privilege, reserved(2), console SID(4), three 8-byte algorithm payloads
-OsrOk(p, a, x) == /\ Len(p) = 32 /\ p[2] = a.MaxPrivilegeLevel /\ p[3] = 0 /\ p[4] = 0
+OsrOk(p, a, x) == /\ Len(p) = 32 /\ p[2] = x.priv /\ p[3] = 0 /\ p[4] = 0
                   /\ Sub(p, 8, 16) = AlgPl(0, x.authNum) /\ Sub(p, 16, 24) = AlgPl(1, x.integNum) /\ Sub(p, 24, 32) = AlgPl(2, x.confNum)
 \* 13.20 RAKP 1: tag, reserved(3), BMC SID(4), console random(16), role, reserved(2), name length, name
 Rakp1Ok(p, a, x, honestSid) ==
-  /\ Len(p) = 28 + Len(a.Username) /\ Sub(p, 1, 4) = <<0, 0, 0>>
+  /\ Len(p) = 28 + Len(x.uname) /\ Sub(p, 1, 4) = <<0, 0, 0>>
   /\ (honestSid => Sub(p, 4, 8) = x.bmcSid)
-  /\ p[25] = a.MaxPrivilegeLevel + (IF a.PrivilegeLevelLookup THEN 0 ELSE 16)
-  /\ p[26] = 0 /\ p[27] = 0 /\ p[28] = Len(a.Username) /\ Sub(p, 28, Len(p)) = a.Username
+  /\ p[25] = x.priv + (IF x.lookup THEN 0 ELSE 16)
+  /\ p[26] = 0 /\ p[27] = 0 /\ p[28] = Len(x.uname) /\ Sub(p, 28, Len(p)) = x.uname
 \* 13.22 RAKP 3: tag, status OK, reserved(2), BMC SID(4), AuthCode
 Rakp3Ok(p, x, honestSid, digestLen) ==
   /\ Len(p) = 8 + digestLen /\ p[2] = 0 /\ p[3] = 0 /\ p[4] = 0 /\ (honestSid => Sub(p, 4, 8) = x.bmcSid)
@@ -56,7 +56,8 @@ OpenTxViol(e) ==
   IN Check("C09", "sessionless-null-session",
            w.ok /\ w.sid = <<0, 0, 0, 0>> /\ w.seq = <<0, 0, 0, 0>> /\ w.auth = 0 /\ w.enc = 0)
      \cup (IF ~w.ok THEN Check("C06", "setup-payload-wrapper", FALSE)
-           ELSE Check("C06", "setup-payload-type-and-order", w.ptype \in {16, 18, 20} /\ w.ptype >= lastTx.ptype)
+           \* (payload type 0 = Get Channel Cipher Suites during discovery, before the Open Session Request)
+           ELSE Check("C06", "setup-payload-type-and-order", w.ptype \in {0, 16, 18, 20} /\ w.ptype >= lastTx.ptype)
                 \cup (IF w.ptype = 16 THEN Check("C06", "open-session-request-fields", OsrOk(p, args, exp))
                                            \cup Check("C12", "proposes-expected-suite",
                                                       Len(p) = 32 /\ <<p[13], p[21], p[29]>> = <<exp.authNum, exp.integNum, exp.confNum>>)
@@ -64,7 +65,7 @@ OpenTxViol(e) ==
                       ELSE IF w.ptype = 20 THEN Check("C06", "rakp3-fields", Rakp3Ok(p, exp, HonestSid, DigestOf(exp.authNum)))
                                                 \cup Check("C01", "bmc-accepts-rakp3", Has(e, "rakp3auth") => e.rakp3auth)
                       ELSE {})
-                \cup Check("C10", "payload-retransmission-identical", (w.ptype = lastTx.ptype) => e.raw = lastTx.raw))
+                \cup Check("C10", "payload-retransmission-identical", (w.ptype # 0 /\ w.ptype = lastTx.ptype) => e.raw = lastTx.raw))
 
 CmdTxViol(e) ==
   LET w  == ParseWrapper(e.raw, info.integLen)
@@ -124,7 +125,7 @@ SessionViol(e) ==
 
 NewViol == LET e == Ev IN
   IF e.ev = "tx" THEN (IF phase = "open" THEN OpenTxViol(e) ELSE IF phase = "cmd" THEN CmdTxViol(e) ELSE {})
-  ELSE IF e.ev = "ret" THEN (IF e.api = "NewV2Session" THEN OpenRetViol(e)
+  ELSE IF e.ev = "ret" THEN (IF e.api \in {"NewV2Session", "NewSession"} THEN OpenRetViol(e)
                              ELSE IF e.api = "Raw" /\ Has(e, "exp") /\ e.exp.outcome = "value" THEN CmdRetViol(e)
                              ELSE Check("C05", "no-panic-no-hang", ~Has(e, "panic") /\ ~Has(e, "hang")))
   ELSE IF e.ev = "session" THEN SessionViol(e)
